@@ -7,7 +7,8 @@
    under every configuration. *)
 From Coq Require Import NArith Arith List Bool.
 Require Import RasnV.Model.Base RasnV.Model.WellFormed.
-Require RasnV.Proofs.C01.
+Require RasnV.Proofs.C01 RasnV.Proofs.Hoist.
+Require Import RasnV.Model.Hoist.
 Import ListNotations.
 
 Theorem C01_names_unique_partial :
@@ -26,6 +27,14 @@ Theorem C01_finite_size_partial :
   forall order items, finite_by order items = true -> (forall it, In it items -> In (i_name it) order) ->
     forall a, ~ Proofs.C01.contains items a a.
 Proof. exact Proofs.C01.no_infinite_size. Qed.
+
+(* the generator's side of name resolution, for types written in place to any depth (SEQUENCE / SET / CHOICE / ENUMERATED
+   inside one another): every name a generated item mentions is the name of an item emitted with it, or a prelude type, or
+   a referenced assignment -- the member is written with exactly the name its in-place type is emitted under.  (The tie of
+   this emission model to the code is C02's correspondence, which follows the same inner names through the real bindings.) *)
+Theorem C01_in_place_types_resolve_partial :
+  forall t name, resolved (emit name t) (externals t) = true.
+Proof. exact Proofs.Hoist.emit_resolved. Qed.
 
 (* non-vacuity: Node { next: Option<Box<Node>> } is fine, Bad { inner: Bad } is not *)
 Example C01_example :
